@@ -1,5 +1,6 @@
 import Txtpp.Lemmas.Term
 import Txtpp.Lemmas.CollectInert
+import Txtpp.Lemmas.Hermetic
 /-!
 # Property C02 — includes always see the complete, fresh output of their dependencies
 
@@ -54,6 +55,16 @@ theorem finished_outputs_complete {C : Type} (w : World) (R : Sem C) (hR : Rende
     (out0 : File → OutState C) (x : WSt C) (h : WReach w R inputs out0 x) :
     ∀ f ∈ x.st.dm.fin, x.outp f = .complete (seqVal R x.st.dm.fin f) :=
   (wreach_inv w R hR inputs out0 x h).finOut
+
+/-- schedule independence, stated directly: any two successful executions of the same project (any
+two interleavings, any two thread counts, any stale outputs on disk) finish the same files with
+the same outputs -/
+theorem schedule_independent {C : Type} (w : World) (R : Sem C) (hR : RenderLocal w R) (inputs : List File)
+    (out0 out0' : File → OutState C) (x x' : WSt C)
+    (h : WReach w R inputs out0 x) (h' : WReach w R inputs out0' x')
+    (hq : x.st.pool = []) (hno : ¬ Leftover x.st) (hq' : x'.st.pool = []) (hno' : ¬ Leftover x'.st) :
+    (∀ f, f ∈ x.st.dm.fin ↔ f ∈ x'.st.dm.fin) ∧ ∀ f ∈ x.st.dm.fin, x.outp f = x'.outp f :=
+  hermetic w R hR inputs out0 out0' x x' h h' hq hno hq' hno'
 
 /-- A command placed after an `after X` / `include X` line (X having a `.txtpp` source) never starts
 before X is complete — part 1: in the first pass, meeting such a line switches to collect mode
